@@ -163,6 +163,8 @@ fn reference_render(m: &[MPart], props: &[Entry]) -> String {
 /// Callbacks a recording writer sees, text merged.
 #[derive(Clone, Debug, PartialEq)]
 enum Cb {
+    /// a plain `fmt::Write::write_str` that did not come through a template callback
+    Raw(String),
     Text(String),
     Value(String, String),
     Fmt(String, String),
@@ -213,10 +215,73 @@ struct Recording {
 
 impl fmt::Write for Recording {
     fn write_str(&mut self, s: &str) -> fmt::Result {
-        // raw writes count as text
-        self.cbs.push(Cb::Text(s.to_string()));
+        // every callback is overridden below, so nothing legitimate arrives here: text must come
+        // through `write_text`
+        self.cbs.push(Cb::Raw(s.to_string()));
         Ok(())
     }
+}
+
+/// A writer whose `write_text` is not `write_str`: text is transformed character by character
+/// (so the result does not depend on how the text is split into fragments), holes are marked, and
+/// plain `write_str` output is marked as raw.
+#[derive(Default)]
+struct Marking {
+    out: String,
+}
+
+fn mark_text(out: &mut String, text: &str) {
+    for c in text.chars() {
+        out.push(c);
+        out.push('\u{b7}');
+    }
+}
+
+impl fmt::Write for Marking {
+    fn write_str(&mut self, s: &str) -> fmt::Result {
+        self.out.push_str("RAW[");
+        self.out.push_str(s);
+        self.out.push(']');
+        Ok(())
+    }
+}
+
+impl template::Write for Marking {
+    fn write_text(&mut self, text: &str) -> fmt::Result {
+        mark_text(&mut self.out, text);
+        Ok(())
+    }
+
+    fn write_hole_value(&mut self, label: &str, value: Value) -> fmt::Result {
+        self.out.push_str(&format!("\u{27e8}{}={}\u{27e9}", label, value));
+        Ok(())
+    }
+
+    fn write_hole_fmt(&mut self, label: &str, value: Value, formatter: Formatter) -> fmt::Result {
+        self.out.push_str(&format!("\u{27e8}{}~{}\u{27e9}", label, formatter.apply(value)));
+        Ok(())
+    }
+
+    fn write_hole_label(&mut self, label: &str) -> fmt::Result {
+        self.out.push_str(&format!("\u{27e8}?{}\u{27e9}", label));
+        Ok(())
+    }
+}
+
+/// What the marking writer must have produced: the same transformation applied to the model.
+fn reference_marked(m: &[MPart], props: &[Entry]) -> String {
+    let mut out = String::new();
+    for p in m {
+        match p {
+            MPart::Text(s) => mark_text(&mut out, s),
+            MPart::Hole(l, f) => match (first_wins(props, l), f) {
+                (Some(v), Some(i)) => out.push_str(&format!("\u{27e8}{}~{}\u{27e9}", l, Applied(FORMATTERS[*i], v))),
+                (Some(v), None) => out.push_str(&format!("\u{27e8}{}={}\u{27e9}", l, v.text())),
+                (None, _) => out.push_str(&format!("\u{27e8}?{}\u{27e9}", l)),
+            },
+        }
+    }
+    out
 }
 
 impl template::Write for Recording {
@@ -262,6 +327,75 @@ impl template::Write for Defaults {}
 // generation
 // ---------------------------------------------------------------------------
 
+/// One shared buffer per aliased case: text fragments, hole labels and property keys are then
+/// sub-slices of it (prefixes that start at the same address with different lengths, e.g. `user`
+/// and `user_id` or the ancestors of a dotted name; suffixes; infixes; repeated segments = equal
+/// text at different addresses). The model compares text by content only.
+#[derive(Clone, Debug, Default)]
+struct Arena {
+    buf: String,
+}
+
+static NO_ARENA: Arena = Arena { buf: String::new() };
+
+impl Arena {
+    fn new(g: &mut Rng) -> Arena {
+        let n = 1 + g.usize(4);
+        let mut buf = String::new();
+        for i in 0..n {
+            if i > 0 {
+                buf.push_str(*g.pick(&[".", "_", ""]));
+            }
+            buf.push_str(*g.pick(&["a", "b", "ab", "é", "日", "a", "user", "x"]));
+        }
+        Arena { buf }
+    }
+
+    fn aliased(&self) -> bool {
+        !self.buf.is_empty()
+    }
+
+    /// A seeded sub-slice, biased towards slices that start at the start of the buffer.
+    fn slice(&self, g: &mut Rng) -> &str {
+        let b: Vec<usize> = self.buf.char_indices().map(|(i, _)| i).chain([self.buf.len()]).collect();
+        let start = if g.chance(3, 5) { 0 } else { g.usize(b.len()) };
+        let end = start + g.usize(b.len() - start);
+        &self.buf[b[start]..b[end]]
+    }
+
+    /// The text of `s` as a slice of the buffer (first occurrence for even salts, a seeded one
+    /// otherwise), or `s` itself if the buffer does not contain it.
+    fn kref<'a>(&'a self, s: &'a str, salt: usize) -> &'a str {
+        if self.buf.is_empty() {
+            return s;
+        }
+        let n = self.buf.match_indices(s).count();
+        if n == 0 {
+            return s;
+        }
+        let nth = if salt % 2 == 0 { 0 } else { (salt / 2) % n };
+        match self.buf.match_indices(s).nth(nth) {
+            Some((at, _)) => &self.buf[at..at + s.len()],
+            None => s,
+        }
+    }
+}
+
+/// A model whose fragments and labels are all slices of the arena's buffer.
+fn gen_model_aliased(g: &mut Rng, ar: &Arena, max_parts: usize) -> Model {
+    let n = g.usize(max_parts + 1);
+    (0..n)
+        .map(|_| {
+            if g.chance(2, 5) {
+                let f = if g.chance(1, 5) { Some(g.usize(FORMATTERS.len())) } else { None };
+                MPart::Hole(ar.slice(g).to_string(), f)
+            } else {
+                MPart::Text(ar.slice(g).to_string())
+            }
+        })
+        .collect()
+}
+
 const ALPHABET: [&str; 9] = ["a", "b", "é", "日", "😀", " ", "{", "}", "x"];
 const LABELS: [&str; 12] = ["", "a", "b", "é", "日", "x", "ab", "a b", "{", "}", "😀x", "a}"];
 
@@ -298,6 +432,10 @@ fn gen_text(g: &mut Rng, max: usize) -> String {
 }
 
 fn gen_model(g: &mut Rng, max_parts: usize, sub: bool) -> Model {
+    if g.chance(1, 10) {
+        // exactly one text part: the shape `Template::literal` and hole-free `tpl!` have
+        return vec![MPart::Text(if sub { g.pick(&["a", "é", "日", "aé", ""]).to_string() } else { gen_text(g, 5) })];
+    }
     let n = g.usize(max_parts + 1);
     let mut m = Vec::new();
     for _ in 0..n {
@@ -454,6 +592,8 @@ fn gen_props(g: &mut Rng, m: &[MPart]) -> Vec<Entry> {
 
 #[derive(Clone, Copy, Debug, PartialEq)]
 enum How {
+    /// every fragment / label borrowed from the case's shared buffer
+    Aliased,
     Borrowed,
     Static,
     Owned,
@@ -464,9 +604,24 @@ enum How {
 const HOWS: [How; 5] = [How::Borrowed, How::Static, How::Owned, How::Shared, How::Mixed];
 
 /// Real parts for a model. `'static` text comes from the table when the fragment is in it.
-fn parts_of<'a>(m: &'a [MPart], how: How, g: &mut Rng) -> Vec<Part<'a>> {
+fn parts_of<'a>(m: &'a [MPart], ar: &'a Arena, how: How, g: &mut Rng) -> Vec<Part<'a>> {
     m.iter()
-        .map(|p| {
+        .enumerate()
+        .map(|(idx, p)| {
+            if how == How::Aliased {
+                // salt: mostly the first occurrence (same start address), sometimes another one
+                let salt = if g.chance(2, 3) { 0 } else { idx * 2 + 1 };
+                return match p {
+                    MPart::Text(s) => Part::text_ref(ar.kref(s, salt)),
+                    MPart::Hole(l, f) => {
+                        let part = if g.bool() { Part::hole_ref(ar.kref(l, salt)) } else { Part::hole_str(Str::new_ref(ar.kref(l, salt))) };
+                        match f {
+                            Some(i) => part.with_formatter(Formatter::new(FORMATTERS[*i])),
+                            None => part,
+                        }
+                    }
+                };
+            }
             let h = if how == How::Mixed { HOWS[g.usize(4)] } else { how };
             match p {
                 MPart::Text(s) => match h {
@@ -571,9 +726,16 @@ fn viol(r: &mut Report, cx: &Ctx, sig: &str, detail: String, extra: Json) {
 
 /// Render one real template through every writer and compare with the reference.
 fn check_render(r: &mut Report, cx: &Ctx, tpl: &Template, variant: &str, m: &[MPart], props: &[Entry]) {
+    check_render_in(r, cx, tpl, variant, m, props, &NO_ARENA)
+}
+
+/// `ar`: when aliased, the properties are additionally handed over with their keys borrowed from
+/// the shared buffer (the same storage the template's labels may come from).
+fn check_render_in(r: &mut Report, cx: &Ctx, tpl: &Template, variant: &str, m: &[MPart], props: &[Entry], ar: &Arena) {
     r.observe("templates-rendered", 1);
     let want = reference_render(m, props);
     let want_cbs = reference_cbs(m, props);
+    let want_marked = reference_marked(m, props);
     let witness = || json!({"model": format!("{:?}", m), "props": format!("{:?}", props), "variant": variant, "want": want});
 
     let res = catch(|| {
@@ -597,12 +759,45 @@ fn check_render(r: &mut Report, cx: &Ctx, tpl: &Template, variant: &str, m: &[MP
         // recorded callbacks
         let mut rec = Recording::default();
         let ok = tpl.render(props).write(&mut rec).is_ok();
-        (outs, rec.cbs, ok)
+        // a writer whose write_text is not write_str
+        let mut marking = Marking::default();
+        let ok2 = tpl.render(props).write(&mut marking).is_ok();
+        let mut marked = vec![("write-marking", if ok2 { marking.out } else { format!("<error after {:?}>", marking.out) })];
+        if ar.aliased() {
+            // keys borrowed from the shared buffer, first occurrence = same start address as
+            // every other key / label that is a prefix of the buffer
+            let aliased: Vec<(&str, &Val)> = props.iter().enumerate().map(|(i, (k, v))| (ar.kref(k, if i % 3 == 2 { i } else { 0 }), v)).collect();
+            outs.push(("display-aliased-props", tpl.render(&aliased[..]).to_string()));
+            let strs: Vec<(Str, Value)> = aliased.iter().map(|(k, v)| (Str::new_ref(k), v.to_value())).collect();
+            let mut s = String::new();
+            let _ = tpl.render(&strs[..]).write(&mut s);
+            outs.push(("write-string-aliased-str-props", s));
+            let mut marking = Marking::default();
+            let _ = tpl.render(&aliased[..]).write(&mut marking);
+            marked.push(("write-marking-aliased-props", marking.out));
+        }
+        (outs, rec.cbs, ok, marked)
     });
     match res {
         Err(msg) => viol(r, cx, &format!("C16:render-panics:{}", variant), format!("rendering panicked: {}", msg), witness()),
-        Ok((outs, cbs, ok)) => {
-            r.observe("renders", outs.len() as u64 + 1);
+        Ok((outs, cbs, ok, marked)) => {
+            r.observe("renders", (outs.len() + marked.len()) as u64 + 1);
+            for (writer, got) in marked {
+                r.observe("marking-writer-renders", 1);
+                if got != want_marked {
+                    let what = if got.contains("RAW[") { "text-bypasses-write_text" } else { "render-differs" };
+                    viol(
+                        r,
+                        cx,
+                        &format!("C16:{}:{}:{}", what, writer, variant),
+                        format!(
+                            "a writer that transforms text in write_text, marks holes and marks plain write_str output as RAW[..] received {:?} from the {} template; the same transformation of the model gives {:?}",
+                            got, variant, want_marked
+                        ),
+                        witness(),
+                    );
+                }
+            }
             for (writer, got) in outs {
                 if got != want {
                     viol(
@@ -701,17 +896,31 @@ const COUNTED: u64 = 1_000_000;
 fn seeded_case(r: &mut Report, seed: u64, i: u64) {
     let mut g = Rng::stream(seed, &[16, 1, i]);
     let sub = g.chance(1, 4);
-    let ma = gen_model(&mut g, if sub { 4 } else { 8 }, sub);
+    // one case in four: every fragment, label and property key is a slice of one shared buffer
+    let arena = if g.chance(1, 4) { Arena::new(&mut g) } else { Arena::default() };
+    let ar = &arena;
+    let al = ar.aliased();
+    let ma = if al { gen_model_aliased(&mut g, ar, 4) } else { gen_model(&mut g, if sub { 4 } else { 8 }, sub) };
     let mb = resplit(&mut g, &ma);
     let (mc, edit) = one_edit(&mut g, &ma);
-    let md = gen_model(&mut g, if sub { 4 } else { 8 }, sub);
+    let md = if al { gen_model_aliased(&mut g, ar, 2) } else { gen_model(&mut g, if sub { 4 } else { 8 }, sub) };
     let me = resplit(&mut g, &mb);
-    let props = gen_props(&mut g, &ma);
-    let how_a = *g.pick(&HOWS);
-    let how_b = *g.pick(&HOWS);
+    let mut props = gen_props(&mut g, &ma);
+    if al {
+        // keys from the buffer too: prefixes / extensions of the labels in the same storage
+        for (k, _) in props.iter_mut() {
+            if g.chance(2, 3) {
+                *k = ar.slice(&mut g).to_string();
+            }
+        }
+        r.observe("cases-with-text-labels-keys-from-one-buffer", 1);
+    }
+    let how_a = if al && g.chance(2, 3) { How::Aliased } else { *g.pick(&HOWS) };
+    let how_b = if al && g.chance(2, 3) { How::Aliased } else { *g.pick(&HOWS) };
+    let how_cd = if al { How::Aliased } else { How::Mixed };
 
     let text = format!("{:?}", ma);
-    let case = || json!({"section": "seeded", "seed": seed, "index": i, "model": text});
+    let case = || json!({"section": "seeded", "seed": seed, "index": i, "model": text, "shared_buffer": arena.buf});
     let cx = Ctx { case: &case };
     r.eval();
     let nf = normal(&ma);
@@ -725,7 +934,7 @@ fn seeded_case(r: &mut Report, seed: u64, i: u64) {
     }
 
     // construction variants of A
-    let pa = parts_of(&ma, how_a, &mut g);
+    let pa = parts_of(&ma, ar, how_a, &mut g);
     let ta = Template::new_ref(&pa);
     let ta_from: Template = Template::from(&pa[..]);
     let ta_by_ref = ta.by_ref();
@@ -782,11 +991,11 @@ fn seeded_case(r: &mut Report, seed: u64, i: u64) {
     }
 
     // equality against other models
-    let pb = parts_of(&mb, how_b, &mut g);
+    let pb = parts_of(&mb, ar, how_b, &mut g);
     let tb = Template::new_ref(&pb);
-    let pc = parts_of(&mc, How::Mixed, &mut g);
+    let pc = parts_of(&mc, ar, how_cd, &mut g);
     let tc = Template::new_ref(&pc);
-    let pd = parts_of(&md, How::Mixed, &mut g);
+    let pd = parts_of(&md, ar, how_cd, &mut g);
     let td = Template::new_ref(&pd);
     let pe = owned_parts(&me, &mut g);
     let te = Template::new_owned(pe);
